@@ -443,6 +443,27 @@ clientReplyContext::handleIMSReply(const StoreIOBuffer result)
 
     // origin replied 304
     if (status == Http::scNotModified) {
+        // RFC 9111 section 4.3.4: a 304 response may only freshen a stored
+        // response that its validator identifies. processExpired() forwards
+        // the client's own If-None-Match instead of our validator, so a 304
+        // naming a different ETag (or, without ETags, a different
+        // Last-Modified) confirms the client's copy, not old_entry.
+        if (http->request->header.has(Http::HdrType::IF_NONE_MATCH)) {
+            const auto newTag = new_rep.header.getETag(Http::HdrType::ETAG);
+            ETag oldTag = {nullptr, -1};
+            const auto oldHasTag = old_entry->hasEtag(oldTag);
+            const auto foreignTag = newTag.str && oldHasTag && !etagIsWeakEqual(newTag, oldTag);
+            const auto foreignTime = !newTag.str && !oldHasTag &&
+                                     new_rep.last_modified >= 0 && old_entry->lastModified() >= 0 &&
+                                     new_rep.last_modified != old_entry->lastModified();
+            if (foreignTag || foreignTime) {
+                debugs(88, 3, "origin replied 304 to the client's own validator; forwarding it without updating " << *old_entry);
+                http->updateLoggingTags(LOG_TCP_REFRESH_MODIFIED);
+                sendClientUpstreamResponse(result);
+                return;
+            }
+        }
+
         // TODO: The update may not be instantaneous. Should we wait for its
         // completion to avoid spawning too much client-disassociated work?
         if (!Store::Root().updateOnNotModified(old_entry, *http->storeEntry())) {
